@@ -223,3 +223,23 @@ func TestVerifC10Random(t *testing.T) {
 		})
 	})
 }
+
+// FuzzVerifC10Bytes feeds coverage-guided bytes: low nibbles form the path, the
+// first byte's top bit selects the terminator.
+func FuzzVerifC10Bytes(f *testing.F) {
+	f.Add([]byte{})
+	f.Add([]byte{0x80, 1, 2, 3})
+	f.Add([]byte{0x01, 15, 0, 7, 9})
+	f.Fuzz(func(t *testing.T, data []byte) {
+		term := len(data) > 0 && data[0]&0x80 != 0
+		nib := make([]byte, 0, len(data))
+		for _, b := range data {
+			nib = append(nib, b&0x0f)
+		}
+		if len(nib) > 200 {
+			nib = nib[:200]
+		}
+		c10CheckPath(t, nib, term)
+		c10CheckKey(t, data)
+	})
+}
